@@ -20,11 +20,12 @@ type C15Scenario struct {
 	Const  int64
 	Seeds  []uint64
 	Spaced bool
+	Wrap   string `json:",omitempty"` // "" top level | func | computed | nested (function called from a computed value)
 }
 
 func c15Gen(seed uint64, tier string) any {
 	r := NewRng(seed)
-	sc := &C15Scenario{Spaced: r.Bool()}
+	sc := &C15Scenario{Spaced: r.Bool(), Wrap: Pick(r, []string{"", "", "func", "computed", "nested"})}
 	n := r.Range(1, 3)
 	for i := 0; i < n; i++ {
 		var d DiceSpec
@@ -36,6 +37,13 @@ func c15Gen(seed uint64, tier string) any {
 		}
 		if d.Fam == "common" && d.Sides > 1<<40 {
 			d.Sides = 1 << 20
+		}
+		// keep every quantity far from the integer range: wrap-around is not monotone
+		if d.Min > 1<<20 {
+			d.Min = 1 << 20
+		}
+		if d.Max > 1<<20 {
+			d.Max = 1 << 20
 		}
 		d.Via, d.Source = "vm", "pcg"
 		if d.HasMin && d.HasMax {
@@ -75,6 +83,16 @@ func (sc *C15Scenario) expr() string {
 	e := strings.Join(parts, sep)
 	if sc.Const != 0 {
 		e += sep + strconv.FormatInt(sc.Const, 10)
+	}
+	// the same expression evaluated inside a sub-VM: the modes are inherited by function bodies and
+	// computed values
+	switch sc.Wrap {
+	case "func":
+		return "func rr() { return " + e + " }; rr()"
+	case "computed":
+		return "&cv = " + e + "; cv"
+	case "nested":
+		return "func rr() { return " + e + " }; &cv = rr(); cv"
 	}
 	return e
 }
@@ -136,7 +154,7 @@ func c15Exec(raw json.RawMessage, res *RunResult) {
 	if len(sc.Terms) > 1 {
 		before := len(res.Violations)
 		for i := range sc.Terms {
-			one := C15Scenario{Terms: []DiceSpec{sc.Terms[i]}, Coefs: []int64{1}, Seeds: sc.Seeds, Spaced: sc.Spaced}
+			one := C15Scenario{Terms: []DiceSpec{sc.Terms[i]}, Coefs: []int64{1}, Seeds: sc.Seeds, Spaced: sc.Spaced, Wrap: sc.Wrap}
 			c15One(&one, m, res)
 		}
 		if len(res.Violations) > before {
@@ -167,6 +185,7 @@ func c15One(scp *C15Scenario, m *Meter, res *RunResult) {
 		}
 	}
 	famKey = strings.TrimSuffix(famKey, "+")
+	defer func() { _ = famKey }()
 	if len(sc.Terms) == 1 && sc.Terms[0].Fam == "coc" {
 		if sc.Terms[0].Bonus {
 			famKey = "coc-bonus"
@@ -251,7 +270,10 @@ func c15One(scp *C15Scenario, m *Meter, res *RunResult) {
 		}
 		res.Probe("plain_terms_attainment_checked")
 	}
-	res.State(HashStr(famKey + fmt.Sprint(len(sc.Terms))))
+	res.State(HashStr(famKey + fmt.Sprint(len(sc.Terms)) + sc.Wrap))
+	if sc.Wrap != "" {
+		res.Probe("evaluated_in_sub_vm_" + sc.Wrap)
+	}
 }
 
 func c15Shrink(raw json.RawMessage) []json.RawMessage {
